@@ -54,6 +54,7 @@ type Frame struct {
 	runq       []*ssa.Defer // defers still to run for the current rundefers
 	inRunq     bool
 	mustAtCall EffSet
+	seen       EffSet // read/decode effects that happened during this frame (incl. callees)
 }
 
 type LockState struct {
@@ -148,6 +149,7 @@ type Explorer struct {
 	MaxStates int
 	AssumeTblStable bool // after a successful schema acquisition, table lookups hit
 	AssumeStorePresent bool // comma-ok lookups of a per-type map in an object store succeed (rules about "what is pending gets flushed")
+	Trace    string
 	Mask     EffSet // effects tracked in must/may (others are reported as events but not remembered)
 	Opaque   EffSet // a callee whose closure is within this set is not inlined
 
@@ -230,7 +232,12 @@ func (st *State) clone() *State {
 	return n
 }
 
+var seenBits = effs(EFsRObj, EJsonDec)
+
 func (st *State) add(e Eff) {
+	if seenBits.Has(e) {
+		st.frames[len(st.frames)-1].seen = st.frames[len(st.frames)-1].seen.With(e)
+	}
 	switch e {
 	case EIdxWLive, ECfgW:
 		if st.mask.Has(EDirty) {
@@ -499,7 +506,7 @@ func (x *Explorer) hash(st *State) uint64 {
 		if fr.deferred {
 			df = 1
 		}
-		buf = putInt(buf, -1, x.fid(fr.fn), fr.blk.Index, fr.pc, site, df, len(fr.defers), len(fr.runq))
+		buf = putInt(buf, -1, x.fid(fr.fn), fr.blk.Index, fr.pc, site, df, len(fr.defers), len(fr.runq), int(fr.seen[0]), int(fr.seen[1]))
 		for _, d := range fr.defers {
 			buf = putInt(buf, int(d.Pos()))
 		}
@@ -573,7 +580,7 @@ func (x *Explorer) hash(st *State) uint64 {
 
 // Run explores all abstract paths of the root function.
 func (x *Explorer) Run() {
-	st := &State{env: map[vkey]Sym{}, cells: map[vkey]Sym{}, facts: map[Sym]Fact{}, mask: x.Mask.With(ETblHas)}
+	st := &State{env: map[vkey]Sym{}, cells: map[vkey]Sym{}, facts: map[Sym]Fact{}, mask: x.Mask.Union(effs(ETblHas, EFsRObj, EJsonDec))}
 	fn := x.Root
 	start := fn.Blocks[0]
 	if x.LoopHeader != nil {
@@ -695,6 +702,9 @@ func (x *Explorer) runState(st *State) {
 			return
 		}
 		in := fr.blk.Instrs[fr.pc]
+		if x.Trace != "" && strings.Contains(FuncName(fr.fn), x.Trace) {
+			fmt.Printf("    TRACE d=%d %s b%d: %s\n", len(st.frames), FuncName(fr.fn), fr.blk.Index, in.String())
+		}
 		cont := x.step(st, in)
 		if !cont {
 			return
@@ -939,4 +949,14 @@ func (x *Explorer) lenPosPattern(st *State, c *ssa.BinOp) (ssa.Value, bool, bool
 		}
 	}
 	return nil, false, false
+}
+
+// emptyInput: the path assumed an empty variadic / slice parameter of the root (len == 0).
+func (st *State) emptyInput() bool {
+	for k, v := range st.lenpos {
+		if k.d == 0 && v == triNo {
+			return true
+		}
+	}
+	return false
 }
